@@ -21,10 +21,6 @@ theorem c36_bresenham_bbox_bounded :
 
 /-! ## T1 / S5 contours (bounded) -/
 
-def maskAt (rows cols : Nat) (mask : List Bool) (p : Pt) : Bool :=
-  decide (0 ≤ p.1 ∧ p.1 < rows ∧ 0 ≤ p.2 ∧ p.2 < cols) &&
-    mask.getD (p.1.toNat * cols + p.2.toNat) false
-
 /-- The oracle for one mask: the call returns, and every contour point is an in-image
 foreground pixel with a non-foreground position in its 8-neighbourhood. -/
 def contoursOk (rows cols : Nat) (mask : List Bool) (outerOnly : Bool) : Bool :=
